@@ -839,6 +839,12 @@ fn run_m(prefix: bool, ws: &[&str]) -> CaseResult {
             }
         } else {
             res = res.tag("m-over-64k");
+            // fix 448eed6: a dynamic pattern / pattern list never captures a path longer than u16::MAX
+            // (no truncated offsets, no panic); the static arm is not guarded
+            let is_static = single && !pats[0].contains('{') && !pats[0].ends_with('*');
+            if !is_static && cap_s != "-" {
+                res = res.fail("long-path-captured", format!("path of {} bytes: capture_match_info = {}", path.len(), &cap_s[..cap_s.len().min(60)]));
+            }
         }
         if !had_fail {
             if let Some((_, d)) = res.fail.as_mut() {
@@ -991,7 +997,8 @@ fn run_k(ws: &[&str]) -> CaseResult {
         let nseg = p.segment_count();
         match catch_unwind(AssertUnwindSafe(|| rd.capture_match_info(&mut p))) {
             Err(_) => {
-                if path.len() < 65536 {
+                let is_static = !pat.contains('{') && !pat.ends_with('*');
+                if path.len() < 65536 || !is_static {
                     res = res.fail("capture-panic", format!("capture_match_info panicked at step {}", step));
                 }
                 outs.push("PANIC".to_owned());
